@@ -134,8 +134,16 @@ def _blocks(blocks, c: _Ctx, listlevel=None, in_cell=False) -> str:
                     inner = _blocks(cell, c, in_cell=True)
                     if not inner.endswith("</w:p>"):
                         inner += "<w:p/>"       # a cell must end with a paragraph
-                    cells.append(f'<w:tc><w:tcPr><w:tcW w:w="{4000 if span else 2000}" w:type="dxa"/>{span}</w:tcPr>{inner}</w:tc>')
-                rows.append("<w:tr>" + "".join(cells) + "</w:tr>")
+                    tc = f'<w:tc><w:tcPr><w:tcW w:w="{4000 if span else 2000}" w:type="dxa"/>{span}</w:tcPr>{inner}</w:tc>'
+                    if ncols == 2 and j == 1 and len(b[1]) == 2 and not in_cell:
+                        # a cell bound to a content control: w:sdt around the w:tc -- a cell of the row all the same
+                        tc = f"<w:sdt><w:sdtPr/><w:sdtContent>{tc}</w:sdtContent></w:sdt>"
+                    cells.append(tc)
+                tr = "<w:tr>" + "".join(cells) + "</w:tr>"
+                if len(b[1]) >= 2 and row is b[1][-1] and ncols != 2 and not in_cell:
+                    # the last row is a repeating-section item: w:sdt around the w:tr -- a row of the table all the same
+                    tr = f"<w:sdt><w:sdtPr/><w:sdtContent>{tr}</w:sdtContent></w:sdt>"
+                rows.append(tr)
             grid = "".join('<w:gridCol w:w="2000"/>' for _ in range(ncols))
             out.append(f'<w:tbl><w:tblPr><w:tblW w:w="0" w:type="auto"/></w:tblPr><w:tblGrid>{grid}</w:tblGrid>'
                        + "".join(rows) + "</w:tbl>")
